@@ -67,21 +67,23 @@ Lemma slice_firstn_eq a b o n : firstn (o + n) a = firstn (o + n) b -> slice a o
 Proof. intro H. unfold slice. rewrite !firstn_skipn_comm. now rewrite H. Qed.
 
 (* ---------- the plan keeps the header and fills the directory slots in order ---------- *)
-Lemma run_plan_mono c dir_base : forall plan idx ds acc s dirs s',
-  run_plan c dir_base plan idx ds acc s = Ok (dirs, s') -> blen s <= blen s'.
+Lemma run_plan_mono c dir_base : forall plan idx ds acc log s res s',
+  run_plan c dir_base plan idx ds acc log s = Ok (res, s') -> blen s <= blen s'.
 Proof.
-  induction plan as [|st rest IH]; intros idx ds acc s dirs s' E; cbn [run_plan] in E.
+  induction plan as [|st rest IH]; intros idx ds acc log s res s' E; cbn [run_plan] in E.
   - injection E as <- <-. lia.
   - unfold bind at 1 in E. destruct (run_step c st ds s) as [[r s1]| |] eqn:E1; try discriminate.
     destruct (run_step_frame 0 c st ds s r s1 E1 ltac:(lia)) as (L1 & _).
+    unfold bind at 1 in E. cbn [w_get] in E.
     destruct (fst r) as [d|].
     + unfold bind at 1 in E. destruct (w_patch (dir_base + DIRENT_SZ * idx) (enc_dirent d) s1) as [[u s2]| |] eqn:E2; try discriminate.
-      destruct (frame_patch 0 _ _ ltac:(lia) _ _ _ E2 ltac:(lia)) as (L2 & _). specialize (IH _ _ _ _ _ _ E). lia.
-    + specialize (IH _ _ _ _ _ _ E). lia.
+      unfold bind at 1 in E. cbn [w_get] in E.
+      destruct (frame_patch 0 _ _ ltac:(lia) _ _ _ E2 ltac:(lia)) as (L2 & _). specialize (IH _ _ _ _ _ _ _ E). lia.
+    + specialize (IH _ _ _ _ _ _ _ E). lia.
 Qed.
 
-Lemma run_plan_dir c dir_base : forall plan idx ds acc s dirs s',
-  run_plan c dir_base plan idx ds acc s = Ok (dirs, s') ->
+Lemma run_plan_dir c dir_base : forall plan idx ds acc log s dirs lg s',
+  run_plan c dir_base plan idx ds acc log s = Ok ((dirs, lg), s') ->
   dir_base + DIRENT_SZ * (idx + length (types_of plan)) <= blen s ->
   length acc = idx -> small (blen s') ->
   slice (w_buf s) dir_base (DIRENT_SZ * idx) = concat (map enc_dirent (rev acc)) ->
@@ -89,11 +91,12 @@ Lemma run_plan_dir c dir_base : forall plan idx ds acc s dirs s',
   firstn dir_base (w_buf s') = firstn dir_base (w_buf s) /\ blen s <= blen s' /\
   length dirs = idx + length (types_of plan).
 Proof.
-  induction plan as [|st rest IH]; intros idx ds acc s dirs s' E Hb Hacc Hs Hsl; cbn [run_plan] in E.
-  - injection E as <- <-. cbn [types_of flat_map length]. rewrite Nat.add_0_r. split; [exact Hsl|]. split; [reflexivity|]. split; [lia|].
+  induction plan as [|st rest IH]; intros idx ds acc log s dirs lg s' E Hb Hacc Hs Hsl; cbn [run_plan] in E.
+  - injection E as <- _ <-. cbn [types_of flat_map length]. rewrite Nat.add_0_r. split; [exact Hsl|]. split; [reflexivity|]. split; [lia|].
     now rewrite rev_length.
   - unfold bind at 1 in E. destruct (run_step c st ds s) as [[r s1]| |] eqn:E1; try discriminate.
     pose proof (run_step_shape _ _ _ _ _ _ E1) as Hshape.
+    unfold bind at 1 in E. cbn [w_get] in E.
     cbn [types_of flat_map] in Hb |- *. fold (types_of rest) in Hb |- *.
     set (F := dir_base + DIRENT_SZ * idx) in *.
     destruct (run_step_frame F c st ds s r s1 E1 ltac:(unfold F, DIRENT_SZ in *; rewrite app_length in Hb; lia)) as (L1 & K1).
@@ -102,15 +105,16 @@ Proof.
       unfold bind at 1 in E. destruct (w_patch F (enc_dirent d) s1) as [[u s2']| |] eqn:E2; try discriminate.
       assert (Hin : F + length (enc_dirent d) <= length (w_buf s1)) by (rewrite enc_dirent_len; unfold F, DIRENT_SZ, blen in *; lia).
       unfold w_patch in E2. rewrite write_at_inside in E2 by exact Hin. injection E2 as Hs2. subst s2'.
+      unfold bind at 1 in E. cbn [w_get] in E.
       set (s2 := {| w_buf := update (w_buf s1) F (enc_dirent d); w_objs := w_objs s1; w_refs := w_refs s1 |}) in *.
       assert (L2 : blen s2 = blen s1) by (unfold blen, s2; cbn [w_buf]; now rewrite update_length).
-      destruct (IH (S idx) (snd r) (d :: acc) s2 dirs s' E ltac:(unfold DIRENT_SZ in *; lia) ltac:(cbn [length]; lia) Hs) as (R1 & R2 & R3 & R4).
+      destruct (IH (S idx) (snd r) (d :: acc) _ s2 dirs lg s' E ltac:(unfold DIRENT_SZ in *; lia) ltac:(cbn [length]; lia) Hs) as (R1 & R2 & R3 & R4).
       * (* the slots filled so far, in the state after the patch *)
         replace (DIRENT_SZ * S idx) with (DIRENT_SZ * idx + DIRENT_SZ) by lia. rewrite slice_split. fold F.
         cbn [rev]. rewrite map_app, concat_app. cbn [map concat]. rewrite app_nil_r. f_equal.
         -- rewrite <- Hsl. unfold s2. cbn [w_buf].
            rewrite (slice_update_before (w_buf s1) F (enc_dirent d) dir_base (DIRENT_SZ * idx)); [|unfold F; lia|unfold F, blen in *; lia].
-           apply slice_firstn_eq. fold F. apply K1. eapply small_le; [|exact Hs]. pose proof (run_plan_mono _ _ _ _ _ _ _ _ _ E). lia.
+           apply slice_firstn_eq. fold F. apply K1. eapply small_le; [|exact Hs]. pose proof (run_plan_mono _ _ _ _ _ _ _ _ _ _ E). lia.
         -- unfold s2. cbn [w_buf]. rewrite <- (enc_dirent_len d). now apply slice_update_same.
       * replace (idx + S (length (types_of rest))) with (S idx + length (types_of rest)) by lia.
         split; [exact R1|]. split; [|split; [lia|lia]].
@@ -120,14 +124,14 @@ Proof.
            replace (dir_base - Nat.min F (length (w_buf s1))) with 0 by (unfold F in *; lia). cbn [firstn]. now rewrite app_nil_r.
         -- eapply firstn_le_eq; [|apply K1; eapply small_le; [|exact Hs]; lia]. unfold F; lia.
     + cbn [app] in Hb |- *.
-      destruct (IH idx (snd r) acc s1 dirs s' E ltac:(lia) Hacc Hs) as (R1 & R2 & R3 & R4).
-      * rewrite <- Hsl. apply slice_firstn_eq. fold F. apply K1. eapply small_le; [|exact Hs]. pose proof (run_plan_mono _ _ _ _ _ _ _ _ _ E). lia.
+      destruct (IH idx (snd r) acc _ s1 dirs lg s' E ltac:(lia) Hacc Hs) as (R1 & R2 & R3 & R4).
+      * rewrite <- Hsl. apply slice_firstn_eq. fold F. apply K1. eapply small_le; [|exact Hs]. pose proof (run_plan_mono _ _ _ _ _ _ _ _ _ _ E). lia.
       * split; [exact R1|]. split; [|split; [lia|exact R4]].
         rewrite R2. eapply firstn_le_eq; [|apply K1; eapply small_le; [|exact Hs]; lia]. unfold F; lia.
 Qed.
 
-Theorem image_directory c dirs s' :
-  image c empty_wst = Ok (dirs, s') -> small (blen s') ->
+Theorem image_directory c dirs lg s' :
+  image c empty_wst = Ok ((dirs, lg), s') -> small (blen s') ->
   slice (w_buf s') 0 HEADER_SZ = enc_header (ic_time c) (N.of_nat HEADER_SZ) /\
   slice (w_buf s') HEADER_SZ (DIRENT_SZ * NUM_DIRS) = concat (map enc_dirent dirs) /\
   length dirs = NUM_DIRS.
@@ -149,8 +153,8 @@ Proof.
   injection E3 as _ Hs3.
   assert (Hb3 : w_buf s3 = update (w_buf s2) 0 (enc_header (ic_time c) (l_rva dir))) by (rewrite <- Hs3; reflexivity).
   assert (Hl3 : blen s3 = 248) by (unfold blen; rewrite Hb3, update_length; [exact Hlen2|rewrite enc_header_len, Hlen2; unfold HEADER_SZ; lia]).
-  rewrite Hdir0 in E.
-  destruct (run_plan_dir c 32 (map fst stream_plan) 0 ([], CNone) [] s3 dirs s' E) as (R1 & R2 & R3 & R4).
+  rewrite Hdir0 in E. unfold bind at 1 in E. cbn [w_get] in E.
+  destruct (run_plan_dir c 32 (map fst stream_plan) 0 ([], CNone) [] _ s3 dirs lg s' E) as (R1 & R2 & R3 & R4).
   - rewrite Hl3, plan_types_are. vm_compute. lia.
   - reflexivity.
   - exact Hs.
